@@ -137,6 +137,9 @@ class AnnotationCollection(AbstractFeatureIntervalCollection):
         if start is None and end is None:
             # if we still have nothing, we are empty
             self._location = EmptyLocation()
+            self.start = None
+            self.end = None
+            self.bin = None
         else:
             self._initialize_location(start, end, parent_or_seq_chunk_parent)
             self.start = start
@@ -618,6 +621,8 @@ class AnnotationCollection(AbstractFeatureIntervalCollection):
         """
         # after bins were decided, we can now force start/end to min/max values
         # for exact checking
+        if self.start is None:
+            raise InvalidQueryError("Cannot query an empty collection without bounds by position")
         start = self.start if start is None else start
         end = self.end if end is None else end
         if start < 0:
